@@ -55,7 +55,11 @@ class Scenario:
         req = {"op": op, "id": rid}
         if session:
             req["session"] = "garden-" + session[1:]
-        if code is not None and op == "load-file":
+        if op == "completions":
+            req["prefix"] = "pri"
+        elif op == "lookup":
+            req["sym"] = "println"
+        elif code is not None and op == "load-file":
             req["file"] = code
             req["file-path"] = "/tmp/verif_nrepl_load.gdn"
         elif code is not None:
@@ -104,14 +108,16 @@ def gen_scenario(rnd, focus):
             name = rnd.choice(names)
             if name in ("L", "LP") and running_loop.get(s):
                 name = "V"            # one spinning eval per session at a time
-            op = "load-file" if name in ("V", "P", "PE", "X", "PX", "D") and rnd.random() < 0.3 else "eval"
+            # (definitions and calls of f9 stay in eval requests: a loaded file has its own namespace)
+            op = "load-file" if name in ("V", "P", "PE", "X", "PX") and rnd.random() < 0.3 else "eval"
             sc.eval(d, s, name, op)
             if name in ("L", "LP"):
                 running_loop[s] = True
             elif rnd.random() < 0.25:
                 # a pipeline: more requests written back to back behind this one, sometimes ended by a close
                 for _ in range(rnd.randint(1, 2)):
-                    sc.eval(0.0, s, rnd.choice(["V", "P", "X", "R"]), rnd.choice(["eval", "eval", "load-file"]))
+                    nm = rnd.choice(["V", "P", "X", "R"])
+                    sc.eval(0.0, s, nm, "eval" if nm == "R" else rnd.choice(["eval", "eval", "load-file"]))
                 if rnd.random() < 0.4 and s not in sc.closed:
                     sc.add(0.0, "close", s, prefix="k")
                     sc.closed.add(s)
@@ -123,8 +129,15 @@ def gen_scenario(rnd, focus):
             sc.add(d, "close", s, prefix="k")
             sc.closed.add(s)
             running_loop.pop(s, None)
-        elif c < 0.92:
+        elif c < 0.90:
             sc.add(d, "eval", "s9", "1 + 1", [{"k": "val"}], prefix="e")
+        elif c < 0.95:
+            # session-bound requests that do not evaluate, and ops the reader answers itself
+            op = rnd.choice(["completions", "lookup", "describe", "ls-sessions"])
+            if op in ("completions", "lookup"):
+                sc.add(d, op, s, script=[{"k": "info"}], prefix="q")
+            else:
+                sc.add(d, op, prefix="d")
         else:
             sc.add(d, "frob", s, prefix="u")
     # make sure nothing is left spinning: interrupt every session twice at the end
@@ -142,8 +155,14 @@ def to_events(sc, events):
     err_before_done = set()
     for i, m in enumerate(recvs):
         st = [nc.text(x) for x in m.get("status", [])]
-        if "status" in m and ("eval-error" in st or "interrupted" in st) and i > 0 and "err" in recvs[i - 1] and recvs[i - 1].get("id") == m.get("id") and "status" not in recvs[i - 1]:
-            err_before_done.add(i - 1)
+        if "status" in m and ("eval-error" in st or "interrupted" in st):
+            # the last message of the same request before its final one (answers to other requests, written
+            # by the reader thread, may sit in between)
+            for j in range(i - 1, -1, -1):
+                if recvs[j].get("id") == m.get("id"):
+                    if "err" in recvs[j] and "status" not in recvs[j]:
+                        err_before_done.add(j)
+                    break
     ri = 0
     for k, m in events:
         if k == "send":
